@@ -36,6 +36,7 @@ func zzH_CLI() {
 		}
 	})
 	failWith := make([]string, K)
+	inOrder := true
 	vGo("env", func() {
 		// collect the K requests, then answer them in a chosen order
 		type rq struct {
@@ -56,7 +57,10 @@ func zzH_CLI() {
 		if K == 3 {
 			order = [][]int{{0, 1, 2}, {0, 2, 1}, {1, 0, 2}, {1, 2, 0}, {2, 0, 1}, {2, 1, 0}}[vChoose("order", 6)]
 		}
-		for _, i := range order {
+		for x, i := range order {
+			if x != i {
+				inOrder = false // a server without pipelining: outside C05's premise
+			}
 			if vChoose("fail", 2) == 1 {
 				failWith[i] = "E" + string(rune('0'+i))
 				m.deliver(zzResponse(got[i].seq, failWith[i], nil))
@@ -80,8 +84,8 @@ func zzH_CLI() {
 				vAssert(vEqBytes(replies[i], zzReplyFor(args[i])), "reply-of-own-args")
 			}
 		}
-		if mode == 2 {
-			// client pipelining: completions arrive in issue order
+		if mode == 2 && inOrder {
+			// client pipelining against a server that answers in order: completions arrive in issue order
 			for i := 0; i < K; i++ {
 				c := <-done
 				vAssert(c == calls[i], "pipelined-completion-order")
